@@ -50,6 +50,9 @@ CHECKS = {
  "C06": dict(level="model_checking", sec="3/C06", technique="exhaustive enumeration of small machine-code programs x window alignments x entries x manual-edge sets; explicit lock-step comparison of the recovered CFG's executions with an instruction-at-a-time fetch-execute loop",
    text="For 7 translators: all programs of <=3 (thorough 4) instructions over {inc, nop, conditional branch to any index, jump to any index, return} x both condition values x nop runs placing each position at window offsets 56..66 x entry at instruction 0/1 x 3 manual-edge sets; address traces, final registers, per-instruction IL counts, entry address, dangling edges and manual-edge presence compared. Larger programs and other instruction mixes are not covered.",
    note="Trusted: refil reference semantics; per-instruction meaning is taken from the lifter itself (single-instruction lifting), so only composition is judged."),
+ "C01": dict(level="exploration", sec="3/C01", technique="exhaustive byte-grammar x boundary-state grid executed on the host CPU (native trampoline) and on the lifted IL under a reference interpreter; exhaustive within the stated grid, no sampling",
+   text="Every encoding of the grammar [66/F2/F3][REX][all 1-byte/0F opcodes + 0F38/3A rows][ModRM/SIB forms][imm patterns] the lifter accepts, x the cross product of boundary values for every register the IL reads, flag valuations, memory patterns (20 M CPU executions in quick); GPRs, XMM, CF/ZF/SF/OF/DF, scratch memory, stack and next address compared. 32-bit mode through long-mode equivalent encodings. Segment, far, privileged and 32-bit stack instructions are not executed; values outside the alphabets are not covered.",
+   note="Trusted: the host CPU, the trampoline/signal recovery, SDM undefined-flag masks, refil. Verdicts for behaviour the SDM leaves undefined are masked so they do not depend on the CPU vendor."),
 }
 NA = []
 def main():
